@@ -210,6 +210,7 @@ pub fn run_c02(ctx: &Ctx) -> i32 {
     // (4) stream-level strictness on the common workload
     let mut subs = crate::mon_a::std_subs(ctx, 60, 35);
     subs.push(crate::mon_a::short_sub(ctx));
+    subs.push(crate::mon_a::shortread_sub(ctx));
     drive(ctx, subs, &[oracle_c02], &mut out, |_c, o| !o.rep.frames.is_empty());
 
     // (5) the metadata chain: 0..=6 application blocks added with Stream::add_metadata_block (in
